@@ -162,6 +162,9 @@ func (mt *multiSwarm) LocalAddrs() (ret []Addr) {
 }
 
 func (mt *multiSwarm) Close() error {
+	// release the receive loops first: a loop waiting in tells.Deliver holds a message lent by
+	// its transport, and a transport's Close may wait for that message to be handed back.
+	mt.tells.CloseWithError(p2p.ErrClosed)
 	var err error
 	for _, t := range mt.swarms {
 		if err2 := t.Close(); err2 != nil {
@@ -169,7 +172,6 @@ func (mt *multiSwarm) Close() error {
 			logctx.Errorln(mt.ctx, "closing swarms", err)
 		}
 	}
-	mt.tells.CloseWithError(p2p.ErrClosed)
 	return err
 }
 
